@@ -16,6 +16,7 @@ A second mode (`Engine(concrete=assignment)`) hands out plain Python values
 counterexamples and to cross-check closed paths without any proxy object
 ("concolic cross-run").
 """
+import fnmatch
 import time
 import z3
 
@@ -399,7 +400,7 @@ class Engine:
 
     def explore(self, fn, params, prefixes=None, split_depth=None,
                 crosscheck_every=0, max_violations=8, collect_samples=3,
-                stop_keys=()):
+                stop_keys=(), known_patterns=()):
         """Explore all paths below each prefix.  Returns a dict with
         `exhaustive`, `violations`, `splits` (in split mode), `samples`."""
         self._work = [list(p) for p in (prefixes if prefixes is not None else [[]])]
@@ -407,6 +408,8 @@ class Engine:
         res = dict(exhaustive=True, violations=[], splits=[], samples=[],
                    crosschecks=0, diverged=[], errors=[], ob_keys={})
         seen_keys = set(stop_keys)
+        seen_known = set()
+        nknown = 0
         while self._work:
             if self.deadline is not None and time.time() > self.deadline:
                 res['exhaustive'] = False
@@ -460,6 +463,13 @@ class Engine:
                 info = ob.info() if callable(ob.info) else ob.info
                 if ob.key not in seen_keys:
                     seen_keys.add(ob.key)
+                    kp = next((p for p in known_patterns if fnmatch.fnmatchcase(ob.key, p)), None)
+                    if kp is not None:
+                        # a recorded finding: keep one instance per pattern, do not count it
+                        if kp in seen_known:
+                            continue
+                        seen_known.add(kp)
+                        nknown += 1
                     res['violations'].append(dict(key=ob.key, info=info, assignment=seq,
                                                   named=named, trace=list(self._trace)))
             if len(res['samples']) < collect_samples and self.notes.get('sample') is not None:
@@ -480,7 +490,7 @@ class Engine:
                             res['diverged'].append('observation differs: sym=%r conc=%r' % (sym_obs, cnotes.get('observe')))
                     except (Divergence, Infeasible) as e:
                         res['diverged'].append('%s: %s' % (type(e).__name__, e))
-            if len(res['violations']) >= max_violations:
+            if len(res['violations']) - nknown >= max_violations:
                 res['exhaustive'] = False
                 res['stopped_on_violations'] = True
                 break
